@@ -580,3 +580,53 @@ def rf3b(run, units=('mir', 'gen', 'c2mir')):
                                   % (F.src(x)[:70], skipped['op']), line=x['l'])
         run.functions_analysed.add((u, '*'))
     return n
+
+
+# ---------------------------------------------------------------------------------------------
+# RF2b: memory parked in MIR_item_t.data has one owner
+# ---------------------------------------------------------------------------------------------
+
+def rf2b(run):
+    rule = 'RF2b'
+    run.rule(rule, 'MIR_item_t.data is released by the MIR core (remove_item frees item->data at MIR_finish). Every block stored there by '
+                   'the generator or the interpreter therefore comes from a plain allocation (gen_malloc / MIR_malloc) — never from '
+                   'gen_malloc_and_mark_to_free, whose blocks MIR_gen_finish releases as well — or is freed by the storing unit which '
+                   'then clears the field')
+    mir = run.tu('mir')
+    rm = mir.func('remove_item')
+    frees_data = any(x['k'] == 'CallExpr' and x.get('callee') == 'MIR_free' and 'item->data' in F.src(F.call_args(x)[-1]) for x in rm.walk())
+    if not frees_data:
+        raise F.AnalysisBroken('remove_item no longer frees item->data: the ownership premise of the rule changed')
+    n = 0
+    for unit in ('gen', 'mir'):
+        tu = run.tu(unit)
+        for f in tu.func_list:
+            if f.body is None:
+                continue
+            for x in f.walk():
+                if x['k'] != 'BinaryOperator' or x['op'] != '=':
+                    continue
+                l = F.strip(x['c'][0])
+                if l['k'] != 'MemberExpr' or l['n'] != 'data':
+                    continue
+                bt = tu.type(F.strip(l['c'][0]))
+                if bt is None or 'MIR_item' not in bt.s:
+                    continue
+                # the allocation call feeding the store (through chained assignments)
+                r = F.strip(x['c'][1])
+                while r['k'] == 'BinaryOperator' and r['op'] == '=':
+                    r = F.strip(r['c'][1])
+                if r['k'] != 'CallExpr':
+                    continue
+                n += 1
+                run.functions_analysed.add((unit, f.name))
+                c = r.get('callee')
+                ok = c != 'gen_malloc_and_mark_to_free'
+                run.ob(rule, (unit, f.name, x['l']), ok, {'site': '%s:%d %s' % (f.relfile(), x['l'], f.name), 'allocator': c})
+                if not ok:
+                    run.violation(rule, f, 'block stored in item->data', '%s stores a block from gen_malloc_and_mark_to_free into %s: '
+                                  'MIR_gen_finish frees it with the marked blocks and MIR_finish (remove_item) frees item->data again'
+                                  % (f.name, F.src(l)), line=x['l'])
+    if n < 3:
+        raise F.AnalysisBroken('only %d allocations stored into MIR_item_t.data found (3 confirmed by hand)' % n)
+    return n
